@@ -140,7 +140,7 @@ PROPS = {
                 "process: a panic is caught per case, a stack overflow/abort or 120 s without progress marks the case and the run continues. non-trivial = every case Expression-parser stream: 5000 (quick) / 150000 (thorough) token strings over the query alphabet plus every prefix and suffix of four queries, AST compared with the model.",
         "level_text": "Theorem for the expression evaluator, for EVERY string: no slice off a character boundary or out of range, termination with recursion depth <= length+1 (every slice of the code carries its byte offsets in the "
                 "model, a bad slice is the value RPanic). On the identifier alphabet the model's exact outcome (first failing leaf) is compared with the code. All other entry points are exercised by the fuzzing streams under "
-                "the crash/hang watchdog; the verdict per case is the Coq-defined ExprShape.ok (returned a value or an error). Second modelled parser (Model/BwExpr.v): the backward-chaining ExpressionParser (recursive descent over a Vec<char> with an index; reached through ExpressionParser::parse, QueryParser and GRLQuery) - theorem for EVERY string and every character classification: no index / slice of the parser is out of range and the mutual recursion with its two loops ends within depth 6*length+8; on a query alphabet (identifiers, all literal kinds with escapes, signed / dotted numbers, every operator, parentheses, negation, variables, non-ASCII letters / digits / blanks / symbols) the model predicts the AST or the error exactly and is compared with the code.",
+                "the crash/hang watchdog; the verdict per case is the Coq-defined ExprShape.ok (returned a value or an error). Second modelled parser (Model/BwExpr.v): the backward-chaining ExpressionParser (recursive descent over a Vec<char> with an index; reached through ExpressionParser::parse, QueryParser and GRLQuery) - theorem for EVERY string and every character classification: no index / slice of the parser is out of range and the mutual recursion with its two loops ends within depth 6*length+8; on a query alphabet (identifiers, all literal kinds with escapes, signed / dotted numbers, every operator, parentheses, negation, variables, non-ASCII letters / digits / blanks / symbols) the model predicts the AST or the error exactly and is compared with the code; QueryParser::parse (empty query, trim, optional leading NOT) is modelled on top of it with the same theorem and comparison.",
         "level_note": "Partial: evaluate_expression and the backward-chaining ExpressionParser are modelled and proved; the other GRL / query / stream parsers depend on the third-party crates rexile and nom, whose time and stack behaviour is not expressible in Gallina and is "
                 "covered by the watchdog harness only. Known finding C05-rexile-multibyte-before-keyword (monitor class 2). Trusted: Coq kernel; model of expression.rs after fixes 32df0c7/aee5bb9; char::is_whitespace and "
                 "str::parse as parameters; harness; extraction. Axioms: none.",
